@@ -375,6 +375,67 @@ func init() {
 		},
 		outside: "keywords/expressions with symbolic text (rendering of text is C02's subject); aliases as expression (C12); validity/presentation policies (C14)",
 	})
+
+	register(&property{
+		id: "C07",
+		gen: func(tier string, seed int) []symx.CaseSpec {
+			var out []symx.CaseSpec
+			add := func(depth, maxw int, digits []int) {
+				for l := 0; l <= depth+2; l++ {
+					out = append(out, cs("VH_C07", append([]int{depth, maxw, l}, digits...)...))
+				}
+			}
+			// hand-picked shapes: leaf then nested stack (the sibling case), chains, conditions
+			add(2, 2, []int{0, 1, 0, 3, 0, 1, 0, 0, 0})
+			add(2, 3, []int{1, 2, 0, 3, 0, 0, 1, 0, 0, 4, 1, 1, 2, 0})
+			add(3, 2, []int{0, 1, 3, 0, 1, 1, 3, 1, 0, 0, 0, 4, 0, 1, 0, 0})
+			n := q(tier, 40, 400)
+			r := uint64(seed)*2654435761 + 12345
+			for i := 0; i < n; i++ {
+				var digits []int
+				for k := 0; k < 24; k++ {
+					r = r*6364136223846793005 + 1442695040888963407
+					digits = append(digits, int((r>>33)%60))
+				}
+				depth := 2
+				if i%3 == 2 {
+					depth = 3
+				}
+				add(depth, 2+i%2, digits)
+			}
+			return out
+		},
+		boundsText: map[string]string{
+			"quick":    "43 trees (3 hand-picked + 40 drawn from VERIF_SEED) of depth<=3, width<=3 with text leaves, nil slots, Conditions with text or Stack expressions, nested Stacks and aliases; every path length 0..depth+2 with every index an unconstrained 64-bit variable; negative/forward index bits of every node symbolic",
+			"thorough": "403 trees, same generator",
+		},
+		outside: "trees outside the sampled set / deeper or wider than the bound; Condition aliases (C12)",
+		assumptions: []string{"tree shapes are enumerated (concrete); the solver covers all index values and index-option bits for each shape"},
+	})
+
+	register(&property{
+		id: "C14",
+		gen: func(tier string, seed int) []symx.CaseSpec {
+			var out []symx.CaseSpec
+			for n := 0; n <= q(tier, 2, 3); n++ {
+				for m := 0; m <= q(tier, 3, 4); m++ {
+					for capMode := 0; capMode <= 1; capMode++ {
+						out = append(out, cs("VH_C14_Push", n, m, capMode))
+					}
+				}
+			}
+			for k := 0; k < 5; k++ {
+				out = append(out, cs("VH_C14_StackClosures", k))
+			}
+			out = append(out, cs("VH_C14_CondClosures"))
+			return out
+		},
+		boundsText: map[string]string{
+			"quick":    "push policy: existing length<=2, batches<=3 of {text, nil, nested Stack}, each consultation's verdict an arbitrary boolean (solver variable), capacity field none or any value in [n+1,n+3], other options symbolic; closures: every ordered pair of install/remove steps over validity, presentation, equality, unmarshal, marshal (and Evaluate on Conditions) on every stack kind, closure verdicts symbolic",
+			"thorough": "as quick with existing length<=3 and batches<=4",
+		},
+		outside: "policies with side effects on the stack itself; longer install/remove sequences",
+	})
 }
 
 var _ = fmt.Sprint
